@@ -415,11 +415,13 @@ func vModOp(f *File, m *vModel, kind int) {
 			}
 		}
 		f.Cleanup()
+		vMapOrder(true)
 		if kind == 19 {
 			f.SetRequire(req)
 		} else {
 			f.SetRequireSeparateIndirect(req)
 		}
+		vMapOrder(false)
 		m.req = want
 	}
 }
